@@ -239,10 +239,6 @@ Print Assumptions C13_udp_former_witness_bytes.
 
 (* ------------------------------------------------------------ non-vacuity -------------- *)
 
-Definition plain : rclass := {| r_get := false; r_flag := false |}.
-Definition get : rclass := {| r_get := true; r_flag := false |}.
-Definition flagged : rclass := {| r_get := false; r_flag := true |}.
-
 Example sites_of_the_pinned_tree :
   forallb (fun tr => forallb (fun k => covers tr true (pinned_sites tr k true) && covers tr false (pinned_sites tr k false))
                              all_classes) all_transports = true /\
